@@ -101,7 +101,10 @@ type KnownFinding struct {
 	// Class/Match: a violation of this class whose detail contains Match is
 	// this finding.
 	Class string `json:"class,omitempty"`
-	Match string `json:"match,omitempty"`
+	// ClassContains: a violation whose class contains this substring is
+	// this finding (the worlds tag classes with the circumstance).
+	ClassContains string `json:"class_contains,omitempty"`
+	Match         string `json:"match,omitempty"`
 	What  string `json:"what"`
 	Why   string `json:"why_not_fixed,omitempty"`
 }
@@ -414,10 +417,16 @@ func classFile(class string) string {
 
 func matchKnown(kf []KnownFinding, v Violation) *KnownFinding {
 	for i, k := range kf {
-		if k.Tolerance || k.Class == "" {
+		if k.Tolerance || (k.Class == "" && k.ClassContains == "") {
 			continue
 		}
-		if k.Class == v.Class() && (k.Match == "" || strings.Contains(v.Detail, k.Match)) {
+		if k.Class != "" && k.Class != v.Class() {
+			continue
+		}
+		if k.ClassContains != "" && !strings.Contains(v.Class(), k.ClassContains) {
+			continue
+		}
+		if k.Match == "" || strings.Contains(v.Detail, k.Match) {
 			return &kf[i]
 		}
 	}
